@@ -124,7 +124,14 @@ struct RefRange : Observer {
     void inserted(Node* p, size_t idx) override { if (detached) return; if (s.c == p && s.o > idx) s.o++; if (e.c == p && e.o > idx) e.o++; }
     static void fixData(BP& b, Node* n, size_t off, size_t count, size_t newLen) { if (b.c != n) return; if (b.o > off && b.o <= off + count) b.o = off; else if (b.o > off + count) b.o = b.o + newLen - count; }
     void dataReplaced(Node* n, size_t off, size_t count, size_t newLen) override { if (detached) return; fixData(s, n, off, count, newLen); fixData(e, n, off, count, newLen); }
-    void textSplit(Node* n, Node* t, size_t off) override { if (detached) return; if (s.c == n && s.o > off) { s.c = t; s.o -= off; } if (e.c == n && e.o > off) { e.c = t; e.o -= off; } }
+    // A boundary point behind the cut follows its characters into the tail node; a boundary point in the parent that sat right behind the
+    // node that was split stays behind ALL of its former text, i.e. moves behind the tail (otherwise a range that starts in the moved text
+    // and ends right behind the old node would end before it starts).
+    // The tail is inserted at index(n)+1; by the Level 2 insertion rule a boundary-point at exactly that index stays in front of the tail (the
+    // pinned RangeTest relies on it). Only when the start follows its text into the tail must an end at (parent, index(n)+1) move behind the
+    // tail - otherwise the range would end before it starts, which the property rules out.
+    void textSplit(Node* n, Node* t, size_t off) override { if (detached) return; bool startMoved = false; if (s.c == n && s.o > off) { s.c = t; s.o -= off; startMoved = true; } if (e.c == n && e.o > off) { e.c = t; e.o -= off; }
+        if (Node* p = n->parent) { size_t idx = (size_t)n->indexInParent(); if (startMoved && e.c == p && e.o == idx + 1) e.o++; } }
 
     // ---- setting boundary points
     static bool badContainerType(const Node* n) { for (; n; n = n->parent) if (n->type == DOCUMENT_TYPE || n->type == ENTITY || n->type == NOTATION) return true; return false; }
